@@ -72,6 +72,10 @@ func (w *seqWorld) tamper(c0 *seqCmd) {
 	w.mu.Lock()
 	o, ok := w.objects[c.Key]
 	var applied string
+	var prev *storedObj
+	if ok {
+		prev = &storedObj{data: o.data, opts: o.opts}
+	}
 	switch c.Mut {
 	case "delete":
 		if ok {
@@ -91,6 +95,20 @@ func (w *seqWorld) tamper(c0 *seqCmd) {
 			d[i] ^= 0x01
 			o.data = d
 			applied = "flip"
+		}
+	case "fliptail":
+		// a byte in the second half of the content of a compressed object changes: a staging bundle whose first entries
+		// still parse
+		if ok && len(o.data) > 0 {
+			if raw, err := sqGunzip(o.data); err == nil && len(raw) > 1 {
+				raw[len(raw)-1-int(c.V)%(len(raw)/2)] ^= 0x01
+				var buf bytes.Buffer
+				zw := gzip.NewWriter(&buf)
+				zw.Write(raw)
+				zw.Close()
+				o.data = buf.Bytes()
+				applied = "fliptail"
+			}
 		}
 	case "flipraw":
 		// a byte of the CONTENT changes (inside the compressed stream for compressed objects): a data tile that still
@@ -122,6 +140,32 @@ func (w *seqWorld) tamper(c0 *seqCmd) {
 		if src, ok2 := w.objects[c.Name]; ok2 {
 			w.objects[c.Key] = &storedObj{data: append([]byte(nil), src.data...), opts: src.opts}
 			applied = "copyfrom"
+		}
+	}
+	if applied != "" && strings.HasPrefix(c.Key, "staging/") {
+		// A bundle that still reads as a tar archive from end to end but is none of the bundles ever stored under this
+		// key is applied entry by entry and the load then goes on to its edge checks with whatever those entries wrote:
+		// the same as tampering with the tiles directly (which the other mutations do), through a path the model does
+		// not spell out. Such a mutation is not applied. (A bundle that stops parsing somewhere IS applied: the entries
+		// before that point are uploaded and the load is refused.)
+		if o2, ok2 := w.objects[c.Key]; ok2 && bundleFullyParses(o2.data) {
+			ib := &instBackend{w: w}
+			tok := ib.payloadToken(c.Key, o2.data, &o2.opts)
+			legit := prev != nil && ib.payloadToken(c.Key, prev.data, &prev.opts) == tok
+			for _, v := range w.versions[c.Key] {
+				if ib.payloadToken(c.Key, v.data, &v.opts) == tok {
+					legit = true
+				}
+			}
+			if !legit {
+				if prev != nil {
+					w.objects[c.Key] = prev
+				} else {
+					delete(w.objects, c.Key)
+				}
+				applied = ""
+				w.st.Count("tamper-skipped:parseable-unknown-bundle")
+			}
 		}
 	}
 	if applied != "" {
